@@ -238,7 +238,7 @@ pub(super) fn foreach_iterator_init(p: &mut Parser) {
             p.expect_with_msg(T!['}'], "expected '}' at end of bit range list");
             m
         }
-        TokenKind::IntVal => value::range_piece(p),
+        TokenKind::IntVal | TokenKind::BinaryIntVal => value::range_piece(p),
         _ => value::value(p),
     };
 }
